@@ -156,7 +156,7 @@ ben("c15-benign-replace-default", ["C15"], "src/query/select.rs",
     "            r#where: std::mem::take(&mut self.r#where),\n")
 
 # ---- C18 -------------------------------------------------------------------------------------------------------
-brk("c18-delete-eq-arm", ["C18"], "src/value.rs", "                (Self::Char(l), Self::Char(r)) => l == r,\n", "", "C18.R1:eq:covered:Char")
+brk("c18-delete-eq-arm", ["C18"], "src/value.rs", "                (Self::Char(l), Self::Char(r)) => l == r,\n", "", "C18.R1:eq:diagonal:Char")
 brk("c18-cmp-f32-raw", ["C18"], "src/value.rs",
     """    fn cmp_f32(l: &Option<f32>, r: &Option<f32>) -> bool {
         match (l, r) {
@@ -174,7 +174,7 @@ brk("c18-hash-f64-bits", ["C18"], "src/value.rs",
 brk("c18-cross-variant", ["C18"], "src/value.rs", "                (Self::Int(l), Self::Int(r)) => l == r,\n",
     "                (Self::Int(l), Self::Int(r)) => l == r,\n                (Self::Int(l), Self::BigInt(r)) => l.map(i64::from) == *r,\n", "C18.R1:eq:diagonal")
 brk("c18-json-structural-hash", ["C18"], "src/value.rs",
-    "            Some(v) => serde_json::to_string(v).unwrap().hash(state),", "            Some(v) => v.hash(state),", "C18.R2:json:pair", )
+    "            Some(v) => serde_json::to_string(v).unwrap().hash(state),", "            Some(v) => v.hash(state),", "C18.R2:pair:Json", )
 
 # ---- C12 -------------------------------------------------------------------------------------------------------
 brk("c12-nullable-str-char", ["C12"], "src/value.rs",
@@ -328,7 +328,7 @@ brk("c16-escape-always", ["C16"], "src/token.rs",
 brk("c19-all-to-any", ["C19"], "sea-query-derive/src/lib.rs",
     "        && name.chars().all(|c| c == '_' || c.is_ascii_alphanumeric())", "        && name.chars().any(|c| c == '_' || c.is_ascii_alphanumeric())", "C19.R1:predicate")
 brk("c19-and-to-or-assign", ["C19"], "sea-query-derive/src/lib.rs", "            is_all_valid &= v.must_be_valid_iden();", "            is_all_valid |= v.must_be_valid_iden();", "C19.R2:enum:flag-update")
-brk("c19-swapped-branches", ["C19"], "sea-query-derive/src/lib.rs", "    let prepare = if is_all_valid {\n", "    let prepare = if !is_all_valid {\n", "C19.R2:enum:guard")
+brk("c19-swapped-branches", ["C19"], "sea-query-derive/src/lib.rs", "    let prepare = if is_all_valid {\n", "    let prepare = if !is_all_valid {\n", "C19.R2:enum:prepare-only-guarded")
 brk("c19-lowercase", ["C19"], "sea-query-derive/src/iden/write_arm.rs", "            self.ident.to_string().to_snake_case()\n        }\n    }", "            self.ident.to_string().to_lowercase()\n        }\n    }", "C19.R")
 brk("c19-table-lowercase-cmp", ["C19"], "sea-query-derive/src/iden/write_arm.rs", '        if self.ident == "Table" {', '        if self.ident == "table" {', "C19.R")
 
